@@ -296,11 +296,17 @@ def _run_case(case):
         before = [p.tensor.detach().clone() for p in params]
         try:
             with contextlib.redirect_stdout(io.StringIO()):
-                HMCOperator("vt.hmc", dic[e], params, LeapfrogIntegrator("vt.int", 3, 1e-3), P_("vt.mass", torch.ones(dim, dtype=torch.float64)), find_reasonable_step_size=True)
-        except ValueError:
-            # (the search left the support of the density: the integrator's own guard) - put the values back ourselves
+                integ = LeapfrogIntegrator("vt.int", 3, 1e-3)
+                HMCOperator("vt.hmc", dic[e], params, integ, P_("vt.mass", torch.ones(dim, dtype=torch.float64)), find_reasonable_step_size=True)
+        except (ValueError, RuntimeError, IndexError) as ex:
+            # (the search left the support of the density: the integrator's own guard, or - once the search has doubled the step size at least
+            # three times - a density that raises outside its support, e.g. a root above the origin of a birth-death prior) - put the values
+            # back ourselves; not an update through the public interface with valid values, not judged
+            if not isinstance(ex, ValueError) and not integ.step_size >= 8e-3:
+                raise
             for p, t in zip(params, before):
                 p.tensor = t
+            C["step_size_searches_that_left_the_support"] = C.get("step_size_searches_that_left_the_support", 0) + 1
             return None
         C["step_size_searches"] = C.get("step_size_searches", 0) + 1
         return "HMCOperator constructed with find_reasonable_step_size on %s (joint %s)" % (", ".join(chosen), e)
